@@ -18,6 +18,7 @@ import (
 	"github.com/consensys/gnark/constraint/solver"
 	"github.com/consensys/gnark/frontend"
 	gl "github.com/wormhole-foundation/example-near-light-client/goldilocks"
+	"github.com/wormhole-foundation/example-near-light-client/plonk/gates"
 	"github.com/wormhole-foundation/example-near-light-client/poseidon"
 	"pgregory.net/rapid"
 )
@@ -204,6 +205,7 @@ type c05Case struct {
 	Kind   string    `json:"hint_kind,omitempty"`
 	Group  string    `json:"site_group,omitempty"`
 	Back   string    `json:"backend,omitempty"`
+	Row    *c15Row   `json:"gate_row,omitempty"` // part "gate-monitor"
 }
 
 func c05FindGadget(name string) c05Gadget {
@@ -375,7 +377,7 @@ func c05Compiled(c c05Case) (bool, bool, bool, string) {
 func TestC05(t *testing.T) {
 	r := rec.New("C05")
 	defer r.Flush()
-	r.Rule("(A) isolated gadgets {MulAdd, Reduce, ReduceWithMaxBits(128), RangeCheck, Inverse, MulExtension, InverseExtension, full Poseidon permutation} on rapid-generated operands (edge-heavy), one hint call chosen uniformly among the gadget's dynamic hint calls, replaced by a generated dishonest tuple: (X+k*r) div/mod p, (q-j, rem+j*p), field-solved quotient for a drawn remainder, shifted / field-solved limb pairs, inverse+k*p, arbitrary; engine native+plain and compiled R1CS/SCS via solver.OverrideHint.  (B) whole verifier (A1/k=1..2, B1/k=1): every static hint site group (hint kind + 3 innermost repo frames) x fixed strategy list x first/middle/last dynamic occurrence.  Oracle: a substituted tuple that differs from the honest one (mod r) must be REJECTed -- in (B) by the requesting gadget's own constraints (taint tracking: the failing assertion must have an operand derived from the substituted outputs through arithmetic, bit decomposition, limb splitting, gnark's own hints and at most 2 further MulAdd/Reduce/Inverse hints -- independent of function names and of where the assertion is placed or deferred).  (C) bound monitor over whole-verifier executions: at every equality asserted from package goldilocks both sides have an integer bound < r.  Trivial = substituted tuple equals the honest tuple; the value returned by Inverse(0) is a documented don't-care (counted, excluded).  Distinct = (site or gadget+operands, hint index, strategy).")
+	r.Rule("(A) isolated gadgets {MulAdd, Reduce, ReduceWithMaxBits(128), RangeCheck, Inverse, MulExtension, InverseExtension, full Poseidon permutation} on rapid-generated operands (edge-heavy), one hint call chosen uniformly among the gadget's dynamic hint calls, replaced by a generated dishonest tuple: (X+k*r) div/mod p, (q-j, rem+j*p), field-solved quotient for a drawn remainder, shifted / field-solved limb pairs, inverse+k*p, arbitrary; engine native+plain and compiled R1CS/SCS via solver.OverrideHint.  (B) whole verifier (A1/k=1..2, B1/k=1): every static hint site group (hint kind + 3 innermost repo frames) x fixed strategy list x first/middle/last dynamic occurrence.  Oracle: a substituted tuple that differs from the honest one (mod r) must be REJECTed -- in (B) by the requesting gadget's own constraints (taint tracking: the failing assertion must have an operand derived from the substituted outputs through arithmetic, bit decomposition, limb splitting, gnark's own hints and at most 2 further MulAdd/Reduce/Inverse hints -- independent of function names and of where the assertion is placed or deferred).  (C) bound monitor over whole-verifier executions: at every equality asserted from package goldilocks both sides have an integer bound < r.  (D) the same monitor (plus the 'honest values fit the enforced quotient width' obligations) over single gate evaluators with rapid-generated gate parameters (all 14 gate types; honest, random and extreme rows; inputs range-checked first as in the verifier).  Trivial = substituted tuple equals the honest tuple; the value returned by Inverse(0) is a documented don't-care (counted, excluded).  Distinct = (site or gadget+operands, hint index, strategy).")
 	r.Assume("engine native flavour has exact range-check semantics (C06)", "interval transfer functions of the bound monitor", "control flow of Define is data independent, so dynamic hint indices are stable across runs of one shape")
 
 	var rp c05Case
@@ -394,6 +396,9 @@ func TestC05(t *testing.T) {
 			v, _, _, d = c05Compiled(rp)
 		case "monitor":
 			viol, _ := c05Monitor(rp.Base, rp.K)
+			v, d = len(viol) > 0, strings.Join(viol, "; ")
+		case "gate-monitor":
+			viol, _ := c05GateMonitor(*rp.Row)
 			v, d = len(viol) > 0, strings.Join(viol, "; ")
 		}
 		r.Case("replay", true, fmt.Sprint(rp), func() any { return rp })
@@ -553,8 +558,92 @@ func TestC05(t *testing.T) {
 			r.Fail(t, "C05/monitor/"+strings.SplitN(viol[0], " ", 2)[0], c05Case{Part: "monitor", Base: base, K: k}, "%s", strings.Join(viol, "; "))
 		}
 	}
+	// ---- (D) bound monitor over gate evaluators with generated parameters ----
+	// The corpus circuits fix the gate parameters (BaseSum base 2, RandomAccess 4 bits, ...); the PLONK
+	// part of the verifier evaluates whatever gates the circuit description names.
+	gateObl := map[string]int{}
+	rapidCheck(t, "gate-monitor", tierN(300, 12000), func(rt *rapid.T) {
+		typ := rapid.SampledFrom(gateTypes).Draw(rt, "gate")
+		if (typ == "Poseidon" || typ == "PoseidonMds") && rapid.IntRange(0, 3).Draw(rt, "thin") != 0 {
+			typ = rapid.SampledFrom(gateTypes[4:]).Draw(rt, "gate2") // the Poseidon gates are ~50x more expensive
+		}
+		g := genGateSpec(typ).Draw(rt, "spec")
+		row := c15Row{Gate: g, Mode: int(eng.ModeNative), Kind: "random"}
+		if rapid.Bool().Draw(rt, "honest") {
+			w, c, pi := honestRow(rt, g)
+			for _, e := range w {
+				row.Wires = append(row.Wires, e2(e))
+			}
+			for _, e := range c {
+				row.Consts = append(row.Consts, e2(e))
+			}
+			row.PI, row.Kind = pi, "honest"
+		} else {
+			row.Wires, row.Consts, row.PI = genRowRandom(rt, gateRowWires, gateRowConsts)
+			if rapid.IntRange(0, 2).Draw(rt, "extreme") == 0 {
+				// all-(p-1) style rows maximise every intermediate value
+				for i := range row.Wires {
+					row.Wires[i] = [2]uint64{ref.P - 1 - uint64(i%2), ref.P - 1}
+				}
+				row.Kind = "extreme"
+			}
+		}
+		viol, info := c05GateMonitor(row)
+		for k, v := range info {
+			gateObl[k] += v
+		}
+		r.Case("gate-monitor/"+typ+"/"+row.Kind, true, fmt.Sprint(row), func() any {
+			return map[string]any{"gate": g.id(), "row": row.Kind, "obligations": info}
+		})
+		if len(viol) > 0 {
+			rw := row
+			r.Fail(rt, "C05/gate-monitor/"+typ+"/"+strings.SplitN(viol[0], " ", 2)[0], c05Case{Part: "gate-monitor", Row: &rw}, "%s: %s", g.id(), strings.Join(viol, "; "))
+		}
+	})
+	r.Extra("gate_monitor_obligation_instances", gateObl)
 	r.AddExtra("dont_care_inverse_of_zero_excluded", dontcare)
 	r.Done()
+}
+
+// c05GateMonitor evaluates one gate's constraints on range-checked inputs under the bound monitor:
+// every equality asserted by the Goldilocks chip must have both sides < r over the integers
+// ("equality"), and the largest value an honest prover can have to reduce must fit the quotient
+// width the circuit enforces ("fit").
+func c05GateMonitor(a c15Row) (viol []string, info map[string]int) {
+	id := a.Gate.id()
+	nw, nc := len(a.Wires), len(a.Consts)
+	fn := func(api frontend.API, v []frontend.Variable) []frontend.Variable {
+		c := gl.New(api)
+		for _, x := range v {
+			c.RangeCheck(glv(x)) // openings are range-checked before they reach the gates
+		}
+		g := gates.GateInstanceFromId(id)
+		w, cs, h := readRow(v, nw, nc)
+		vars := gates.NewEvaluationVars(cs, w, h)
+		return flatQE(g.EvalUnfiltered(api, c, *vars))
+	}
+	mon := eng.NewMonitor()
+	res, _ := gad.Run(eng.Options{Mode: eng.ModeNative, Mon: mon}, rowInputs(a.Wires, a.Consts, a.PI), fn)
+	info = map[string]int{}
+	if res.Outcome != eng.Accept {
+		return []string{"not-accepted: honest evaluation of the gate constraints: " + fmtRes(res)}, info
+	}
+	if res.TolerantHints > 0 {
+		return []string{"shipped-hint-failed on an honest gate evaluation"}, info
+	}
+	mon.Finish()
+	for _, o := range mon.Sorted() {
+		info[o.Kind] += o.Count
+		if o.Viol == 0 {
+			continue
+		}
+		if o.Kind == "equality" {
+			viol = append(viol, fmt.Sprintf("%s: equality can wrap around r (lhs bound 2^%d, rhs bound 2^%d, %d instances)", o.Site, o.MaxL.BitLen(), o.MaxR.BitLen(), o.Viol))
+		} else {
+			viol = append(viol, fmt.Sprintf("%s: an honest value of up to 2^%d must be reduced but the enforced %d-bit quotient only covers 2^%d (%d instances)", o.Site, o.MaxL.BitLen(), o.Width, o.Limit.BitLen(), o.Viol))
+		}
+	}
+	return viol, info
 }
 
 var c05KindCache = map[string][]eng.HintKind{}
